@@ -166,9 +166,7 @@ def valContains (container item : Val) : R Bool :=
   match container with
   | .null => .ok false
   | .str s => do .ok (containsSub (← toStr item) s)
-  | .list xs =>
-    if xs.length > 50 then unsup "contains on a list of more than 50 elements (map-based path)"
-    else anyM (fun v => valEquals v item) xs
+  | .list xs => anyM (fun v => valEquals v item) xs     -- the lookup-table shortcut for > 50 elements ends in the same equality scan
   | .map kvs => do let k ← toStr item; .ok (kvs.any (·.1 == k))
   | _ => .ok false
 
